@@ -18,7 +18,7 @@ use std::collections::{BTreeMap, BTreeSet};
 pub const META: PropMeta = PropMeta {
     id: "C03",
     level: "exploration",
-    rule: "cases = registries containing same-path families, each in every registration order: (A) all generic definitions Foo<T> with 1..3 fields from the pool {u8,u32,T, Vec<.>, Option<.>, G<.>, (.,.), Vec<Self>, Option<Vec<.>>} with every ordered selection of 2..3 instantiations out of {u8,u32,bool} (quick: index-strided subsample; thorough: the complete space, exhaustive=true refers to it); (B) all associated-type families Foo<T: Cfg> with 1..2 fields over {u8, T::A0, T::A1, wrappers}, every pair of A0 choices out of 5, parameter skipped or not, both orders; (C) random larger families (two parameters, enums, sibling names Foo1/Foo2/Foo11, 2..4 members); (D) 'two versions of one crate': a random program merged with an edited copy under identical paths; (E) Polkadot. Oracle, outcome based: generate_types_mod on the raw registry and on the registry after ensure_unique_type_paths; Err(DuplicateTypePath) is always acceptable; on Ok every member of every same-path family must be bisimilar (pair-coinductive, C01's relation) to the single emitted item instantiated with the member's own arguments; after de-duplication any two entries still sharing a path must be same-shaped by the oracle's own relation (regeq). non-trivial = the registry has a family with >= 2 members and generation returned Ok or DuplicateTypePath; distinct by registry hash.",
+    rule: "cases = registries containing same-path families, each in every registration order: (A) all generic definitions Foo<T> with 1..3 fields from the pool {u8,u32,T, Vec<.>, Option<.>, G<.>, (.,.), Vec<Self>, Option<Vec<.>>, Box<.>, Option<Box<.>>} with every ordered selection of 2..3 instantiations out of {u8,u32,bool} (quick: index-strided subsample; thorough: the complete space, exhaustive=true refers to it); (B) all associated-type families Foo<T: Cfg> with 1..2 fields over {u8, T::A0, T::A1, wrappers}, every pair of A0 choices out of 5, parameter skipped or not, both orders; (C) random larger families (two parameters, enums, sibling names Foo1/Foo2/Foo11, 2..4 members); (D) 'two versions of one crate': a random program merged with an edited copy under identical paths; (E) Polkadot. Oracle, outcome based: generate_types_mod on the raw registry and on the registry after ensure_unique_type_paths; Err(DuplicateTypePath) is always acceptable; on Ok every member of every same-path family must be bisimilar (pair-coinductive, C01's relation) to the single emitted item instantiated with the member's own arguments; after de-duplication any two entries still sharing a path must be same-shaped by the oracle's own relation (regeq). non-trivial = the registry has a family with >= 2 members and generation returned Ok or DuplicateTypePath; distinct by registry hash.",
     assumptions: &[
         "hook events of types_equal are used for diagnosis text and coverage counters only; verdicts come from the emitted module",
     ],
